@@ -294,6 +294,13 @@ def r21h(ctx, run):
     c04.r04h(ctx, run)
 
 
+def r21i(ctx, run):
+    """what is read out of the comptime function's return register is a number, never a pointer-class value: an address of the compiling process in the
+    object file differs from run to run (shared with C04 R04.c: the capture gate and table)"""
+    import c04
+    c04.r04c(ctx, run)
+
+
 def r21f(ctx, run):
     """the canonicalisation itself: zero_padding evaluated on sample layouts leaves no byte outside the value unwritten-through (shared with C04 R04.g);
     R21.e only decides that it is applied"""
@@ -309,6 +316,7 @@ def rules(ctx):
         Rule("R21.e", "bytes captured from JIT memory are canonicalised (padding) before they are embedded", 1, r21e),
         Rule("R21.f", "the canonicalisation zeroes every byte that is not part of the value, for every sample layout (shared with C04 R04.g)", 13, r21f),
         Rule("R21.h", "constant tables: every byte that goes into the object file is defined (shared with C04 R04.h)", 3, r21h),
+        Rule("R21.i", "only number-typed comptime results are read out of a register: no address of the compiling process becomes an Integer result (shared with C04 R04.c)", 20, r21i),
         Rule("R21.g", "address-bearing comptime results are rejected or relocated: no JIT address reaches the object file (shared with C04 R04.a)", 15, r21g),
         Rule("R21.d", "every output file is replaced as a whole (no write-open without truncation, no append)", 1, r21d),
     ]
